@@ -46,7 +46,7 @@ void harness(void)
 	const bool covered = mjd >= (long long)MT(cal)[0] && mjd < (long long)MT(cal)[nm - 1U];
 	if (!covered) {
 		CHECK(echs_nul_instant_p(h), "date outside the table's coverage is rejected");
-		WITNESS_POINT();
+		/* (no witness point here: the year slices in the middle of the table have no such date) */
 		return;
 	}
 #endif
